@@ -1,4 +1,184 @@
-/-! Line protocol handler for the `sca` domain (stub until the model exists). -/
+import OFCore.TaxScale
+/-!
+Line protocol handler for the `sca` domain (tax scales, properties C08 and C09).
+
+Values are exact rationals `p` or `p/q` (lowest terms), a bracket is `t:r`, a scale is the
+comma-separated list of the brackets **in insertion order** (`-` = no bracket): both sides build
+it with `add_bracket`.  A vector of bases is a comma-separated list (`-` = empty).  `<rd>` is a
+number of decimals or `-`.  One self-contained case per line:
+
+```
+sca build   <ins>                                  -> <scale>
+sca mrcalc  <eps> <factor> <rd> <ins> <bases>      -> v,…            (MarginalRateTaxScale.calc)
+sca mridx   <eps> <factor> <rd> <ins> <bases>      -> k,… | ERR      (bracket_indices)
+sca mrrate  <eps> <factor> <rd> <ins> <bases>      -> r,… | ERR      (marginal_rates)
+sca thr     <eps> <ins> <bases>                    -> t,… | ERR      (threshold_from_tax_base)
+sca ratefb  <eps> <ins> <bases>                    -> r,… | ERR      (rate_from_tax_base)
+sca macalc  <ins> <bases>                          -> v,…            (MarginalAmountTaxScale.calc)
+sca sacalc  <L|R> <ins> <bases>                    -> v,…            (SingleAmountTaxScale.calc)
+sca lacalc  <ins> <bases>                          -> v,… | ERR      (LinearAverageRateTaxScale.calc)
+sca seq     <ins>;<ins>;… <bases>                  -> <scale>|v,…    (receiver.add_tax_scale(each))
+sca cts     <ins|none> <ins|x>;… <bases>           -> <scale>|v,… | none   (combine_tax_scales)
+sca inverse <ins> <bases>                          -> <scale>|v,… | ERR   (v = calc inv (x - calc s x))
+sca mult    <k> <dec|-> <ins> <bases>              -> <scale>|v,…    (v = calc at k*x)
+sca mulr    <k> <ins> <bases>                      -> <scale>|v,…
+sca sts     <k> <ins> <bases>                      -> <scale>|v,…    (scale_tax_scales; v at k*x)
+sca toavg   <ins>                                  -> <avg scale> | ERR   (`inf:r` = the Inf bracket)
+sca avgrt   <ins> <bases>                          -> <scale>|v,… | ERR   (to_average().to_marginal())
+sca tomarg  <avg ins>                              -> <scale> | ERR
+sca copy    <ins> <bases>                          -> <scale>|v,…
+```
+-/
 namespace OFCore.Drv
-def handleSca (_args : List String) : String := "BAD"
+open OFCore.Sca
+
+def showRat (q : Rat) : String :=
+  if q.den = 1 then toString q.num else s!"{q.num}/{q.den}"
+
+def parseRat? (s : String) : Option Rat :=
+  match s.splitOn "/" with
+  | [p] => p.toInt?.map (fun n => (n : Rat))
+  | [p, q] => do
+    let n ← p.toInt?
+    let d ← q.toNat?
+    if d = 0 then none else pure ((n : Rat) / (d : Rat))
+  | _ => none
+
+def parseList? {α} (f : String → Option α) (sep : String) (s : String) : Option (List α) :=
+  if s = "-" then some [] else (s.splitOn sep).mapM f
+
+def parseBracket? (s : String) : Option (Rat × Rat) :=
+  match s.splitOn ":" with
+  | [t, r] => do pure (← parseRat? t, ← parseRat? r)
+  | _ => none
+
+def parseIns? (s : String) : Option (List (Rat × Rat)) := parseList? parseBracket? "," s
+def parseScale? (s : String) : Option Scale := (parseIns? s).map build
+def parseBases? (s : String) : Option (List Rat) := parseList? parseRat? "," s
+def parseRd? (s : String) : Option (Option Nat) := if s = "-" then some none else s.toNat?.map some
+
+def showList {α} (f : α → String) (l : List α) : String :=
+  if l.isEmpty then "-" else ",".intercalate (l.map f)
+
+def showScale (s : Scale) : String := showList (fun b => s!"{showRat b.1}:{showRat b.2}") s
+def showVals (l : List Rat) : String := showList showRat l
+def showInts (l : List Int) : String := showList toString l
+
+def showAvg (a : AvgScale) : String :=
+  let fin := a.fin.map (fun b => s!"{showRat b.1}:{showRat b.2}")
+  let all := match a.top with
+    | some r => fin ++ [s!"inf:{showRat r}"]
+    | none => fin
+  if all.isEmpty then "-" else ",".intercalate all
+
+/-- `inf:r` may only come last -/
+def parseAvg? (s : String) : Option AvgScale :=
+  if s = "-" then some ⟨[], none⟩ else
+  let parts := s.splitOn ","
+  match parts.getLast? with
+  | none => none
+  | some l =>
+    match l.splitOn ":" with
+    | ["inf", r] => do
+      let fin ← (parts.dropLast).mapM parseBracket?
+      pure ⟨build fin, some (← parseRat? r)⟩
+    | _ => do
+      let fin ← parts.mapM parseBracket?
+      pure ⟨build fin, none⟩
+
+def showEx {α} (f : α → String) : Except String α → String
+  | .ok a => f a
+  | .error _ => "ERR"
+
+/-- textbook reading used to observe a transformed scale: `calc` with ε = 0, factor 1 -/
+def calc0 (s : Scale) (xs : List Rat) : List Rat := calcMRVec 0 1 none s xs
+
+def withCalc (s : Scale) (xs : List Rat) : String := s!"{showScale s}|{showVals (calc0 s xs)}"
+
+def handleSca (args : List String) : String :=
+  match args with
+  | ["build", ins] => match parseScale? ins with
+    | some s => showScale s | none => "BAD"
+  | [op, e, f, rd, ins, bs] =>
+    match parseRat? e, parseRat? f, parseRd? rd, parseScale? ins, parseBases? bs with
+    | some e, some f, some rd, some s, some xs =>
+      match op with
+      | "mrcalc" => showVals (calcMRVec e f rd s xs)
+      | "mridx" => showEx showInts (bracketIndices e f rd s xs)
+      | "mrrate" => showEx showVals (marginalRates e f rd s xs)
+      | _ => "BAD"
+    | _, _, _, _, _ => "BAD"
+  | [op, a, b, c, d] =>
+    match op with
+    | "mult" => match parseRat? a, parseRd? b, parseScale? c, parseBases? d with
+      | some k, some dec, some s, some xs =>
+        withCalc (multiplyThresholds s k dec) (xs.map (k * ·))
+      | _, _, _, _ => "BAD"
+    | _ => "BAD"
+  | [op, a, b, c] =>
+    match op with
+    | "thr" => match parseRat? a, parseScale? b, parseBases? c with
+      | some e, some s, some xs => showEx showVals (thresholdFromTaxBase e s xs)
+      | _, _, _ => "BAD"
+    | "ratefb" => match parseRat? a, parseScale? b, parseBases? c with
+      | some e, some s, some xs => showEx showVals (rateFromTaxBase e s xs)
+      | _, _, _ => "BAD"
+    | "sacalc" =>
+      let right := if a = "R" then some true else if a = "L" then some false else none
+      match right, parseScale? b, parseBases? c with
+      | some right, some s, some xs => showVals (xs.map (calcSA right s))
+      | _, _, _ => "BAD"
+    | "mulr" => match parseRat? a, parseScale? b, parseBases? c with
+      | some k, some s, some xs => withCalc (multiplyRates s k) xs
+      | _, _, _ => "BAD"
+    | "sts" => match parseRat? a, parseScale? b, parseBases? c with
+      | some k, some s, some xs => withCalc (scaleTaxScales s k) (xs.map (k * ·))
+      | _, _, _ => "BAD"
+    | "cts" =>
+      let init := if a = "none" then some none else (parseScale? a).map some
+      let child (t : String) : Option (Option Scale) :=
+        if t = "x" then some none else (parseScale? t).map some
+      let children := if b = "." then some [] else (b.splitOn ";").mapM child
+      match init, children, parseBases? c with
+      | some init, some children, some xs =>
+        match combineTaxScales children init with
+        | some s => withCalc s xs
+        | none => "none"
+      | _, _, _ => "BAD"
+    | _ => "BAD"
+  | [op, a, b] =>
+    match op with
+    | "macalc" => match parseScale? a, parseBases? b with
+      | some s, some xs => showVals (xs.map (calcMA s))
+      | _, _ => "BAD"
+    | "lacalc" => match parseScale? a, parseBases? b with
+      | some s, some xs => showEx showVals (xs.mapM (calcLA s))
+      | _, _ => "BAD"
+    | "seq" => match (a.splitOn ";").mapM parseScale?, parseBases? b with
+      | some (r :: others), some xs => withCalc (others.foldl addTaxScale r) xs
+      | _, _ => "BAD"
+    | "inverse" => match parseScale? a, parseBases? b with
+      | some s, some xs =>
+        match inverse s with
+        | .ok inv =>
+          let nets := List.zipWith (· - ·) xs (calc0 s xs)
+          s!"{showScale inv}|{showVals (calc0 inv nets)}"
+        | .error _ => "ERR"
+      | _, _ => "BAD"
+    | "avgrt" => match parseScale? a, parseBases? b with
+      | some s, some xs => showEx (fun m => withCalc m xs) (toAverage s >>= toMarginal)
+      | _, _ => "BAD"
+    | "copy" => match parseScale? a, parseBases? b with
+      | some s, some xs => withCalc (copy s) xs
+      | _, _ => "BAD"
+    | _ => "BAD"
+  | [op, a] =>
+    match op with
+    | "toavg" => match parseScale? a with
+      | some s => showEx showAvg (toAverage s) | none => "BAD"
+    | "tomarg" => match parseAvg? a with
+      | some av => showEx showScale (toMarginal av) | none => "BAD"
+    | _ => "BAD"
+  | _ => "BAD"
+
 end OFCore.Drv
